@@ -52,7 +52,7 @@ type echoParams struct {
 type connSpec struct {
 	Calls    int     `json:"calls"`
 	PauseUs  []int64 `json:"pause_us"`
-	StartUs  int64   `json:"start_us"`           // delay after the burst starts
+	StartUs  int64   `json:"start_us"`            // delay after the burst starts
 	HoldIdle float64 `json:"hold_idle,omitempty"` // stay open (silent) for this multiple of idleTimeout before the last call
 }
 
